@@ -364,6 +364,8 @@ type elH struct {
 	// the in-memory window was emptied by ONE apply acknowledgement while it
 	// was not in shrunk state (next append reuses the window's slice)
 	fullTrimFresh bool
+	forceMore     bool
+	forceApplyAll bool
 	// savedLoose: from the first pipelined GetUpdate until the next synchronous
 	// cycle has saved and acknowledged entries, see checkAllInner
 	savedLoose bool
@@ -1488,7 +1490,10 @@ func (h *elH) opRsmApply(where string) {
 	if h.pushed <= h.rsmApplied {
 		return
 	}
-	x := h.rsmApplied + uint64(rapid.IntRange(1, int(h.pushed-h.rsmApplied)).Draw(t, "applyTo"))
+	x := h.pushed
+	if !h.forceApplyAll {
+		x = h.rsmApplied + uint64(rapid.IntRange(1, int(h.pushed-h.rsmApplied)).Draw(t, "applyTo"))
+	}
 	for _, g := range h.gaps {
 		if x > g.lo && x < g.hi {
 			x = g.hi
@@ -1771,7 +1776,7 @@ func (h *elH) opCycle(pipelined bool) {
 	}
 	more := false
 	if !pipelined {
-		more = rapid.IntRange(0, 4).Draw(t, "moreToApply") > 0
+		more = h.forceMore || rapid.IntRange(0, 4).Draw(t, "moreToApply") > 0
 	}
 	lastApplied := h.rsmApplied
 	if lastApplied > m.processed {
@@ -1947,6 +1952,60 @@ func (h *elH) opAck(drop bool) {
 	}
 }
 
+// opDrain lets the replica catch up completely, with nothing but ordinary steps:
+// the commit index reaches the last index (leader: quorum acknowledged it;
+// follower: an empty Replicate / heartbeat of a leader whose log ends like
+// ours), synchronous cycles hand everything out, the RSM applies all of it, and
+// the next cycle reports LastApplied == last index, which empties the in-memory
+// window with ONE apply acknowledgement.
+func (h *elH) opDrain() {
+	m := h.m
+	last := m.last()
+	if last > m.committed {
+		if h.leader {
+			var ok bool
+			var err error
+			h.guard("trycommit", func() { ok, err = h.el.TryCommit(last, h.leaderTerm) })
+			want := m.term(last) == h.leaderTerm
+			h.logf("drain: leader tryCommit(%d,t%d) -> %v", last, h.leaderTerm, ok)
+			if err != nil || ok != want {
+				h.fail("trycommit-mismatch", "tryCommit(%d,%d)=%v,%s, model %v", last, h.leaderTerm, ok, h.errName(err), want)
+			}
+			if want {
+				m.committed = last
+			}
+		} else {
+			lt := m.term(last)
+			var ok bool
+			var err error
+			h.guard("matchterm", func() { ok, err = h.el.MatchTerm(last, lt) })
+			if err != nil || !ok {
+				h.fail("matchterm-mismatch", "matchTerm(%d,%d)=%v,%s for the log's own pair", last, lt, ok, h.errName(err))
+			}
+			h.guard("tryappend", func() { _, err = h.el.TryAppend(last, nil) })
+			h.guard("committo", func() { h.el.CommitTo(last) })
+			h.logf("drain: replicate prev=%d/t%d ents=[] commit=%d", last, lt, last)
+			m.committed = last
+			if last > h.hbMax {
+				h.hbMax = last
+			}
+		}
+		h.checkAll("drain-commit")
+	}
+	h.forceMore, h.forceApplyAll = true, true
+	defer func() { h.forceMore, h.forceApplyAll = false, false }()
+	for i := 0; i < 6 && (m.processed < m.committed || h.pushed > h.rsmApplied); i++ {
+		h.opCycle(false)
+		h.checkAll("drain-cycle")
+		if h.pushed > h.rsmApplied {
+			h.opRsmApply("drain: ")
+			h.checkAll("drain-apply")
+		}
+	}
+	h.opCycle(false)
+	h.label("drain")
+}
+
 // ---------------------------------------------------------------------------
 // the property
 // ---------------------------------------------------------------------------
@@ -2047,6 +2106,15 @@ var elOps = []elOp{
 		return 0
 	}, func(h *elH) { h.opLocalSnapshot("") }},
 	{"resize", func(h *elH) int { return 4 }, func(h *elH) { h.opResize() }},
+	{"drain", func(h *elH) int {
+		if h.m.last() == h.m.floor || h.el.InMemLen() == 0 {
+			return 0
+		}
+		if h.m.last()-h.m.processed <= 6 {
+			return 8
+		}
+		return 3
+	}, func(h *elH) { h.opDrain() }},
 }
 
 func elRunCase(t *rapid.T, st *vfhelp.Stats) {
